@@ -110,6 +110,8 @@ var c20Fragments = [][]string{
 	// ^ marks a place inside a literal where a line break may be typed in addition to what is there: after a
 	// blank, before a blank, twice in a row (an empty continuation line)
 	{"SELECT", "'hello ^world;'", "FROM", "t", ";"},
+	{"SELECT", "'🙂;；ｘ\uffee\U0010ffff'", "FROM", "t", ";"}, // characters beyond the private key codes of the line editor (emoji, fullwidth forms, the last code point)
+	{"SELECT", "'\ud7ff\ue000;'", ";"},                     // the code points right below and above the surrogate range
 	{"SELECT", "'a;^ b^^c'", ";"},
 }
 
